@@ -457,3 +457,92 @@ func TestZeroValueConcurrentReaders(t *testing.T) {
 		lib.Sample(map[string]any{"test": "ZeroValueConcurrentReaders", "settlers": fmt.Sprint(kinds), "readers": readers, "rounds": rounds})
 	})
 }
+
+// ---------- copies taken WHILE the original is being settled ----------
+
+// Copy() is legal at any time (GoChannel copies a message per delivery while other deliveries are being settled). A copy is
+// a fresh, unsettled message whatever the original is going through at that moment: its first Ack/Nack wins and returns,
+// and it starts with both channels open.
+func TestCopyDuringSettlement(t *testing.T) {
+	defer runtime.GOMAXPROCS(runtime.GOMAXPROCS(0))
+	rapid.Check(t, func(t *rapid.T) {
+		procs := rapid.SampledFrom([]int{2, 4, 16}).Draw(t, "gomaxprocs")
+		settlers := rapid.IntRange(1, 8).Draw(t, "settlersOfTheOriginal")
+		copiers := rapid.IntRange(1, 8).Draw(t, "copiers")
+		perCopier := rapid.IntRange(1, 8).Draw(t, "copiesPerCopier")
+		ackFirst := rapid.Bool().Draw(t, "copiesAreAcked")
+		zero := rapid.IntRange(0, 3).Draw(t, "zeroValueOriginal") == 0
+		runtime.GOMAXPROCS(procs)
+		orig := message.NewMessage("u", []byte("p"))
+		orig.Metadata["k"] = "v"
+		if zero {
+			orig = &message.Message{UUID: "u"}
+		}
+		start := make(chan struct{})
+		var wg sync.WaitGroup
+		var mu sync.Mutex
+		var problems []string
+		bad := func(f string, a ...any) { mu.Lock(); problems = append(problems, fmt.Sprintf(f, a...)); mu.Unlock() }
+		for s := 0; s < settlers; s++ {
+			wg.Add(1)
+			go func(s int) {
+				defer wg.Done()
+				<-start
+				for i := 0; i < 4; i++ {
+					if (s+i)%2 == 0 {
+						orig.Ack()
+					} else {
+						orig.Nack()
+					}
+				}
+			}(s)
+		}
+		var copies []*message.Message
+		for c := 0; c < copiers; c++ {
+			wg.Add(1)
+			go func() {
+				defer wg.Done()
+				<-start
+				for i := 0; i < perCopier; i++ {
+					cp := orig.Copy()
+					mu.Lock()
+					copies = append(copies, cp)
+					mu.Unlock()
+				}
+			}()
+		}
+		close(start)
+		wg.Wait()
+		// every copy behaves as a fresh message
+		done := make(chan struct{})
+		go func() {
+			defer close(done)
+			for i, cp := range copies {
+				if a, n := lib.Settled(cp); a || n {
+					bad("copy #%d taken during the settlement of its original is born settled (acked=%v nacked=%v)", i, a, n)
+					continue
+				}
+				var first, second bool
+				if ackFirst {
+					first, second = cp.Ack(), cp.Nack()
+				} else {
+					first, second = cp.Nack(), cp.Ack()
+				}
+				a, n := lib.Settled(cp)
+				if !first || second || a != ackFirst || n == ackFirst {
+					bad("copy #%d: first settlement returned %v, the opposite one %v, acked=%v nacked=%v (first was Ack: %v)", i, first, second, a, n, ackFirst)
+				}
+			}
+		}()
+		select {
+		case <-done:
+		case <-time.After(lib.Live):
+			t.Fatalf("violation: Ack/Nack on a copy that was taken while its original was being settled did not return within %v (a call blocks)", lib.Live)
+		}
+		if len(problems) > 0 {
+			t.Fatalf("violation: %s", strings.Join(problems, "; "))
+		}
+		lib.Case(fmt.Sprintf("copy-during|%d|%d|%d|%v|%v|%d", settlers, copiers, perCopier, ackFirst, zero, procs), true, "copy-during-settlement")
+		lib.Sample(map[string]any{"test": "CopyDuringSettlement", "settlers": settlers, "copiers": copiers, "copies_each": perCopier, "zero_value_original": zero})
+	})
+}
